@@ -2,10 +2,10 @@
 (* Written by translators/asttable from <repo>/ast/*.go and <repo>/boltz/*.go on every run of
    ./check C20.  Do not edit: the committed copy only lets the project build before the first
    translator run.  53 node kinds. *)
-From Coq Require Import List String.
+From Coq Require Import List.
 From Storage Require Import Ast.AstTable.
 Import ListNotations.
-Open Scope string_scope.
+Open Scope name_scope.
 
 Definition kind_AllOfSetExprNode : kdesc := {|
   k_name := "AllOfSetExprNode"; k_ptr := true; k_file := "node_set.go";
